@@ -527,6 +527,16 @@ func c16Case(r *mon.Run, raw string, e, n *int64) {
 				inner.URL = u.String()
 			}
 		}
+		// errors nested inside the top-level *url.Error are other errors too: a *url.Error about another URL
+		// (a redirect, a proxy) keeps its text, at every depth
+		deep := &url.Error{Op: "Dial", URL: "https://third:pw@third.example/z", Err: errors.New("deep")}
+		mid := &url.Error{Op: "Proxy", URL: "https://second.example/other?x=1", Err: deep}
+		top2 := &url.Error{Op: "Get", URL: u.String(), Err: mid}
+		urlutil.RedactUserinfoInURLError(&u, top2)
+		*e++
+		if top2.URL != red || top2.Err != error(mid) || mid.URL != "https://second.example/other?x=1" || mid.Err != error(deep) || deep.URL != "https://third:pw@third.example/z" {
+			r.Violation("urlerr-nested:"+mon.Q(raw), fmt.Sprintf("RedactUserinfoInURLError on a *url.Error that wraps *url.Errors about other URLs: top URL %q (want %q), nested URLs %q and %q (must stay as they were)", top2.URL, red, mid.URL, deep.URL), map[string]any{"raw": raw})
+		}
 		urlutil.RedactUserinfoInURLError(&u, nil)
 	}
 }
